@@ -345,3 +345,57 @@ func calleeName(ci ssa.CallInstruction) string {
 	}
 	return invokeName(ci)
 }
+
+// presenceOf recognises the forms of "the map has this key": m[k] for a bool-valued map, the comma-ok
+// flag of v, ok := m[k], and m[k] != nil (or its first component) for reference-valued maps. It returns the
+// lookup and whether the key is present when cond is TRUE.
+func presenceOf(cond ssa.Value) (l *ssa.Lookup, presentOnTrue bool, isP bool) {
+	flip := false
+	for {
+		u, isU := cond.(*ssa.UnOp)
+		if !isU || u.Op != token.NOT {
+			break
+		}
+		cond = u.X
+		flip = !flip
+	}
+	asLookup := func(v ssa.Value) *ssa.Lookup {
+		switch x := v.(type) {
+		case *ssa.Lookup:
+			if _, isM := x.X.Type().Underlying().(*types.Map); isM {
+				return x
+			}
+		case *ssa.Extract:
+			if lk, isL := x.Tuple.(*ssa.Lookup); isL && lk.CommaOk && x.Index == 0 {
+				return lk
+			}
+		}
+		return nil
+	}
+	switch x := cond.(type) {
+	case *ssa.Lookup:
+		if lk := asLookup(x); lk != nil && !lk.CommaOk {
+			if b, isB := lk.Type().Underlying().(*types.Basic); isB && b.Kind() == types.Bool {
+				return lk, !flip, true
+			}
+		}
+	case *ssa.Extract:
+		if lk, isL := x.Tuple.(*ssa.Lookup); isL && lk.CommaOk && x.Index == 1 {
+			return lk, !flip, true
+		}
+	case *ssa.BinOp:
+		if x.Op != token.EQL && x.Op != token.NEQ {
+			return nil, false, false
+		}
+		var lk *ssa.Lookup
+		if isNilConst(x.Y) {
+			lk = asLookup(x.X)
+		} else if isNilConst(x.X) {
+			lk = asLookup(x.Y)
+		}
+		if lk != nil {
+			return lk, (x.Op == token.NEQ) != flip, true
+		}
+	}
+	return nil, false, false
+}
